@@ -1,5 +1,55 @@
 import QipVerif.Util.Proto
-/-! Driver stub (to be filled in by the owner of this model). -/
-open QipVerif.Proto
-def step (_line : String) : String := "bad-op"
+import QipVerif.Model.Qft
+/-! Driver for the QFT gate-list model (C17).
+
+* `qft n=N swapping=0|1 cnot=0|1`  →  `ok G;G;…` with `G = KIND:targets:controls:num/exp`
+  (`-` for an empty list / no angle)  |  `err value` (N < 1)
+* `steps n=N swapping=0|1`         →  `ok S;S;…` with `S = snot:i` | `cphase:i:j:k` | `swap:a:b`  |  `err value`
+-/
+open QipVerif QipVerif.Proto QipVerif.Qft
+
+def kindName : Kind → String
+  | .SNOT => "SNOT" | .CPHASE => "CPHASE" | .SWAP => "SWAP" | .CNOT => "CNOT" | .RZ => "RZ"
+  | .GLOBALPHASE => "GLOBALPHASE"
+
+def showL (l : List Nat) : String := if l.isEmpty then "-" else showNats l
+
+def showGate (g : Gate) : String :=
+  let a := match g.ang with
+    | none => "-"
+    | some a => s!"{a.num}/{a.exp}"
+  s!"{kindName g.kind}:{showL g.targets}:{showL g.controls}:{a}"
+
+def showStep : Step → String
+  | .snot i => s!"snot:{i}"
+  | .cphase i j k => s!"cphase:{i}:{j}:{k}"
+  | .swap a b => s!"swap:{a}:{b}"
+
+def flag? (fs : List String) (key : String) : Option Bool :=
+  match fStr? fs key with
+  | some "0" => some false
+  | some "1" => some true
+  | _ => none
+
+def step (line : String) : String :=
+  let fs := fields line
+  match fs.head? with
+  | some "qft" =>
+    match fInt? fs "n", flag? fs "swapping", flag? fs "cnot" with
+    | some n, some sw, some cn =>
+      if n < 1 then "err value" else
+      match gateSequence n.toNat sw cn with
+      | none => "err value"
+      | some gs => "ok " ++ ";".intercalate (gs.map showGate)
+    | _, _, _ => "bad-op"
+  | some "steps" =>
+    match fInt? fs "n", flag? fs "swapping" with
+    | some n, some sw =>
+      if n < 1 then "err value" else
+      match qftSteps n.toNat sw with
+      | none => "err value"
+      | some ss => "ok " ++ ";".intercalate (ss.map showStep)
+    | _, _ => "bad-op"
+  | _ => "bad-op"
+
 def main : IO Unit := serve step
